@@ -9,6 +9,7 @@ import numpy as np
 
 from contracts.c16_functions import CONTRACTS as FUNCTION_CONTRACTS
 from verif.bounded import BoundedCheck, BoundedResult, Violation
+from verif.crosscheck import TARGETS as _XT, EncoderCrossCheck
 from verif.spec import PropertySpec
 
 
@@ -235,3 +236,5 @@ class EvalBounded(BoundedCheck):
 
 
 PROPERTY.bounded.append(EvalBounded())
+
+PROPERTY.bounded.append(EncoderCrossCheck(_XT['C16']))
